@@ -256,6 +256,27 @@ def _classes(s: str, A) -> list[str]:
     return out
 
 
+def _diff_class(e: str, g: str, A) -> str:
+    """Class of the first character of the handed-over string that did not survive the round trip."""
+    i = 0
+    while i < len(e) and i < len(g) and e[i] == g[i]:
+        i += 1
+    if i >= len(e):
+        return "text_appended"
+    ch = e[i]
+    if ch == A.delimiter:
+        return "delimiter"
+    if A.escapechar and ch == A.escapechar:
+        return "escapechar"
+    if ch == '"':
+        return "quote"
+    if ch in "\r\n":
+        return "newline"
+    if ord(ch) > 127:
+        return "non_ascii"
+    return "other_character"
+
+
 def check_case(case, res: Result, scratch: str, case_no: int = 0):
     import openpectus.engine.archiver as A
     from opv.rigs import engine_rig as R
@@ -355,7 +376,7 @@ def check_case(case, res: Result, scratch: str, case_no: int = 0):
                         if nm == "Mark" and e:
                             res.count("mark_cells_nonempty")
                         if e != g:
-                            viol.append(("C39.value_changed_on_read_back:" + ("+".join(cl) or "plain"),
+                            viol.append(("C39.value_changed_on_read_back:" + _diff_class(e, g, A),
                                          f"data row {i} tag {nm!r}: handed over {e!r}, read back {g!r}"))
         n_rows = len(written)
         nontrivial = n_rows >= 3 and special_cells >= 3
